@@ -10,6 +10,26 @@ def steps (t : String) : Option (List Nat) :=
   | none => none
   | some j => if t.startsWith "c" then some [j] else if t.startsWith "b" then some [j, j] else none
 
+def code : Code :=
+  { sendStored := Gen.C08.broadcastSendsStored, stopsOnSetError := Gen.C08.broadcastStopsOnSetError, keysAgree := Gen.C08.poolKeysAgree }
+
+/-- one delivery after the other (each runs check, set, send in one go); `okWrites` pool writes succeed, the later
+    ones fail (`none`: a healthy pool).  Plain and suffrage-confirm ballots live under different pool keys. -/
+def sequential (okWrites : Option Nat) (ds : List (Bool × Nat)) : List Nat × List Nat :=
+  let stepOne (acc : St × St × Nat) (d : Bool × Nat) : St × St × Nat :=
+    let (plain, sc, writes) := acc
+    let s := if d.1 then sc else plain
+    -- the delivery's write fails when the pool has no successful writes left; it writes only when its check finds nothing
+    let willWrite := (seen code s).isNone
+    let fails := match okWrites with | none => false | some k => decide (k ≤ writes)
+    let i := s.ds.length
+    let s1 : St := { s with ds := s.ds ++ [{ fact := d.2, pc := 0, setFails := fails }] }
+    let s2 := run code s1 [i, i, i]
+    let writes' := if willWrite then writes + 1 else writes
+    if d.1 then (plain, s2, writes') else (s2, sc, writes')
+  let r := ds.foldl stepOne ({ pool := none, sent := [], ds := [] }, { pool := none, sent := [], ds := [] }, 0)
+  (r.1.sent, r.2.1.sent)
+
 end Mitum.Driver.MimicDrv
 
 namespace Mitum.Driver
@@ -21,8 +41,21 @@ def stepC08 (ts : List String) : String :=
   | "sched" :: fs :: ";" :: sched =>
     match (fs.splitOn ",").mapM (·.toNat?), sched.mapM MimicDrv.steps with
     | some facts, some ss =>
-      let s := run Gen.C08.broadcastSendsStored (start facts) ss.flatten
+      let s := run MimicDrv.code (start facts) ss.flatten
       if s.sent.isEmpty then "-" else ",".intercalate (s.sent.map toString)
+    | _, _ => "bad-op"
+  | "seq" :: ok :: ";" :: ds =>
+    -- `seq <okWrites|-> ; <i|s><fact>…` → the facts sent for the plain and for the suffrage-confirm stage point
+    let okw : Option (Option Nat) := if ok = "-" then some none else ok.toNat?.map some
+    let parse (t : String) : Option (Bool × Nat) :=
+      if t.startsWith "s" then (t.drop 1).toNat?.map (fun n => (true, n))
+      else if t.startsWith "i" then (t.drop 1).toNat?.map (fun n => (false, n))
+      else none
+    match okw, ds.mapM parse with
+    | some okw, some ds =>
+      let r := MimicDrv.sequential okw ds
+      let shw (l : List Nat) : String := if l.isEmpty then "-" else ",".intercalate (l.map toString)
+      s!"plain={shw r.1} sc={shw r.2}"
     | _, _ => "bad-op"
   | _ => "bad-op"
 end Mitum.Driver
